@@ -25,6 +25,53 @@ ALLFMT = ["10x", "12x", "11n", "11x", "10t", "20t", "20bc", "22x", "21t", "21s",
           "22s", "22c", "22cs", "30t", "32x", "31i", "31t", "31c", "35c", "35ms", "35mi", "3rc", "3rms", "3rmi",
           "51l", "41c", "40sc", "52c", "5rc", "45cc", "4rcc", "00x"]
 
+# every hand-modelled class / function (Model/Insn.lean) + the sweep the instructions are reached through;
+# a changed normalised-AST hash escalates the search (fw.pins_changed)
+PINS = [
+    ("androguard/core/dex/__init__.py", "Instruction"),
+    ("androguard/core/dex/__init__.py", "Instruction10x"),
+    ("androguard/core/dex/__init__.py", "Instruction12x"),
+    ("androguard/core/dex/__init__.py", "Instruction11n"),
+    ("androguard/core/dex/__init__.py", "Instruction11x"),
+    ("androguard/core/dex/__init__.py", "Instruction10t"),
+    ("androguard/core/dex/__init__.py", "Instruction20t"),
+    ("androguard/core/dex/__init__.py", "Instruction20bc"),
+    ("androguard/core/dex/__init__.py", "Instruction22x"),
+    ("androguard/core/dex/__init__.py", "Instruction21t"),
+    ("androguard/core/dex/__init__.py", "Instruction21s"),
+    ("androguard/core/dex/__init__.py", "Instruction21h"),
+    ("androguard/core/dex/__init__.py", "Instruction21c"),
+    ("androguard/core/dex/__init__.py", "Instruction23x"),
+    ("androguard/core/dex/__init__.py", "Instruction22b"),
+    ("androguard/core/dex/__init__.py", "Instruction22t"),
+    ("androguard/core/dex/__init__.py", "Instruction22s"),
+    ("androguard/core/dex/__init__.py", "Instruction22c"),
+    ("androguard/core/dex/__init__.py", "Instruction22cs"),
+    ("androguard/core/dex/__init__.py", "Instruction30t"),
+    ("androguard/core/dex/__init__.py", "Instruction32x"),
+    ("androguard/core/dex/__init__.py", "Instruction31i"),
+    ("androguard/core/dex/__init__.py", "Instruction31t"),
+    ("androguard/core/dex/__init__.py", "Instruction31c"),
+    ("androguard/core/dex/__init__.py", "Instruction35c"),
+    ("androguard/core/dex/__init__.py", "Instruction35ms"),
+    ("androguard/core/dex/__init__.py", "Instruction35mi"),
+    ("androguard/core/dex/__init__.py", "Instruction3rc"),
+    ("androguard/core/dex/__init__.py", "Instruction3rms"),
+    ("androguard/core/dex/__init__.py", "Instruction3rmi"),
+    ("androguard/core/dex/__init__.py", "Instruction51l"),
+    ("androguard/core/dex/__init__.py", "Instruction41c"),
+    ("androguard/core/dex/__init__.py", "Instruction40sc"),
+    ("androguard/core/dex/__init__.py", "Instruction52c"),
+    ("androguard/core/dex/__init__.py", "Instruction5rc"),
+    ("androguard/core/dex/__init__.py", "Instruction45cc"),
+    ("androguard/core/dex/__init__.py", "Instruction4rcc"),
+    ("androguard/core/dex/__init__.py", "Instruction00x"),
+    ("androguard/core/dex/__init__.py", "get_instruction"),
+    ("androguard/core/dex/__init__.py", "get_optimized_instruction"),
+    ("androguard/core/dex/__init__.py", "DalvikPacker"),
+    ("androguard/core/dex/__init__.py", "LinearSweepAlgorithm.get_instructions"),
+]
+
 _R = {}
 
 
@@ -216,13 +263,13 @@ def judge_attrs(req):
 def gen_first_unit_sweep(ck):
     """all 256 opcodes x all 256 second bytes x fixed tails (+ seeded random tails)"""
     rng = ck.rng
-    ntail = 1 if ck.quick else 24
+    ntail = 1 if (ck.quick and not ck.escalated) else 24
     reqs = []
     for op in range(256):
         for b1 in range(256):
             head = bytes([op, b1])
             for j, t in enumerate(TAILS):
-                if not ck.quick or (j + b1) % 2 == 0:          # quick: three of the six fixed tails, alternating
+                if not (ck.quick and not ck.escalated) or (j + b1) % 2 == 0:          # quick: three of the six fixed tails, alternating
                     reqs.append("gi " + (head + t).hex())
             for _ in range(ntail):
                 reqs.append("gi " + (head + rng.randbytes(8)).hex())
@@ -232,7 +279,7 @@ def gen_first_unit_sweep(ck):
 def gen_spec_valid(ck):
     """valid instructions from the specification-side generator (boundary and uniform field values)"""
     rng = ck.rng
-    n = 60 if ck.quick else 1500
+    n = 60 if (ck.quick and not ck.escalated) else 1500
     reqs = []
     for op in sorted(DS.OPCODES):
         for i in range(n):
@@ -256,7 +303,7 @@ def gen_truncated(ck):
 def gen_classes(ck):
     """every Instruction class constructed directly on arbitrary bytes (dead ODEX classes included) + ODEX table"""
     rng = ck.rng
-    n = 400 if ck.quick else 20000
+    n = 400 if (ck.quick and not ck.escalated) else 20000
     reqs = []
     for f in ALLFMT:
         reqs.append(f"cls {f} -")
@@ -329,8 +376,48 @@ def run_stream(ck, drv, stream, reqs, judged=True):
              dist={f"{stream}:{k}": v for k, v in sorted(fmts.items())})
 
 
+def _via_sweep_chunk(labels):
+    from harness.fw import quiet_androguard
+    from harness.props import c02
+    quiet_androguard()
+    out = []
+    for lb in labels:
+        rq, exp = c02.boundary_case(lb)
+        rl = c02.canon_real(rq)
+        v = c02.judge(rq, rl, exp)
+        out.append(tuple(str(x)[:300] for x in v) if v else None)
+    return out
+
+
+def run_via_sweep(ck, full, procs=12):
+    """the same instructions reached the way every caller reaches them — through LinearSweepAlgorithm — far into long
+    code: an instruction of each length class (1, 2, 3, 5 units) at every even offset within +-12 bytes of 0x1000,
+    0x2000, 0x3000 (nop and mixed sleds) and of 0x10000 must be yielded with the format table's length and re-encode
+    to the input bytes.  Deterministic (cases shared with C02's boundary stream); leg S only."""
+    labels = []
+    for kind in ("u1", "u2", "u3", "u5"):
+        for d in range(-12, 13, 2):
+            labels.append(f"nop:{kind}:{d}:4096,8192,12288")
+            labels.append(f"mix:{kind}:{d}:4096,8192,12288")
+            labels.append(f"wide:{kind}:{d}:65536")
+            if full:
+                labels.append(f"mix:{kind}:{d}:65536")
+    parts = [labels[k::procs] for k in range(procs)]
+    with Pool(procs) as pool:
+        res = pool.map(_via_sweep_chunk, parts)
+    n = 0
+    for part, vs in zip(parts, res):
+        for lb, v in zip(part, vs):
+            if v is not None and n < 10:
+                n += 1
+                ck.fail({"via_sweep": lb}, "reached through the linear sweep: " + v[0], None, v[1], v[2])
+    ck.cover(evaluations=len(labels), distinct=set(labels), samples=[{"request": "via-sweep " + labels[0]}],
+             dist={"via-sweep:programs": len(labels)})
+
+
 def run(ck: Check):
     _real()
+    ck.pins_changed(PINS)
     ck.run_gen("opcodes")
     ck.prove(exes=["drv_C01"])
     drv = Driver("drv_C01")
@@ -348,6 +435,7 @@ def run(ck: Check):
     else:
         run_stream(ck, drv, "first-unit", gen_first_unit_sweep(ck))
     run_stream(ck, drv, "spec-valid", gen_spec_valid(ck))
+    run_via_sweep(ck, (not ck.quick) or ck.escalated)
     run_stream(ck, drv, "truncated", gen_truncated(ck))
     run_stream(ck, drv, "classes", gen_classes(ck), judged=False)
     ck.assumptions.append("struct.pack/unpack (little-endian standard sizes B b H h I i q) modelled as AgVerif.Insn.pack/unpack; "
@@ -364,6 +452,17 @@ def replay(ck: Check, rp):
     c = rp.get("case") or rp.get("first_divergence") or {}
     rq = c.get("request")
     print("replay", c)
+    if c.get("via_sweep"):
+        from harness.props import c02
+        lb = c["via_sweep"]
+        srq, exp = c02.boundary_case(lb)
+        _, a, buf = c02.parse_req(srq)
+        print(f"via-sweep case {lb}: LinearSweepAlgorithm.get_instructions over {len(buf)} bytes of valid code; expected "
+              f"{len(exp)} items, last three at {[(o, r.hex()) for o, r in exp[-3:]]}")
+        real = c02.canon_real(srq)
+        print("real :", c02._shorten(real)[-300:])
+        v = c02.judge(srq, real, exp)
+        print("judge:", tuple(str(x)[:300] for x in v) if v else None)
     if rq:
         real = canon_real(rq)
         print("real :", real)
